@@ -25,7 +25,7 @@ pub fn spec() -> PropSpec {
     PropSpec {
         id: "C19",
         level: "exploration",
-        rule: "4 (thorough: 8) secret keys ([29k;32]) x every contract of <=3 predicates drawn from a pool of 6 small predicates (<=2 nodes, <=2 edges, 2 program addresses; plus 2 contracts repeating a predicate) x 2 salts. Per (key, contract, salt): sign, then present every permutation of the predicates (and sign every permutation, present the original); content tamperings = every salt bit (quick: every 4th), every byte of every predicate's encoding xor {0x01,0x80} (quick: 0x01) re-decoded where that yields a different encodable predicate, every program-address bit of the first node (thorough), remove / duplicate each predicate, add each pool predicate; signature tamperings = every single-bit flip of the 64 signature bytes (quick: every 4th bit), recovery byte 0..=255 (quick: on the first salt only), and 12 malformed strings (all-zero with ids 0..3 and 255, all-0xFF, r=0, s=0, r=n, s=n, r=n-1 with s=n, id 4) and the malleated high-S twin (r, n-s, id^1) of the genuine signature. Oracle: genuine signature on the same multiset of predicates and salt => recover = the signer's key (derived independently with secp256k1), verify and verify_message Ok; changed content => recover is Err or another key and verify_message Err; flipped signature bit / other recovery id => Err or another key; malformed (id>3, r or s zero or >= group order) => Err; every subject call under catch_unwind; encode::public_key / encode::signature collision-free over every key and signature met, every key's negation (differs only in the parity byte) and every valid key that shares all but the last serialized byte with a signer's key, *_as_bytes = big-endian bytes of the words; RecoverSecp256k1 through sync::step_op on [address words, encode::signature words] pushes encode::public_key(recovered key); check_signed_contract accepts exactly when verify does. non-trivial = the presented contract has a predicate or the signature/content was tampered; distinct by probe",
+        rule: "4 (thorough: 8) secret keys ([29k;32]) x every contract of <=3 predicates drawn from a pool of 6 small predicates (<=2 nodes, <=2 edges, 2 program addresses; plus 2 contracts repeating a predicate, plus one contract with a 1000-node predicate and one with a 1000-edge predicate, edited structurally at first/middle/last node and edge) x 2 salts. Per (key, contract, salt): sign, then present every permutation of the predicates (and sign every permutation, present the original); content tamperings = every salt bit (quick: every 4th), every byte of every predicate's encoding xor {0x01,0x80} (quick: 0x01) re-decoded where that yields a different encodable predicate, every program-address bit of the first node (thorough), remove / duplicate each predicate, add each pool predicate; signature tamperings = every single-bit flip of the 64 signature bytes (quick: every 4th bit), recovery byte 0..=255 (quick: on the first salt only), and 12 malformed strings (all-zero with ids 0..3 and 255, all-0xFF, r=0, s=0, r=n, s=n, r=n-1 with s=n, id 4) and the malleated high-S twin (r, n-s, id^1) of the genuine signature. Oracle: genuine signature on the same multiset of predicates and salt => recover = the signer's key (derived independently with secp256k1), verify and verify_message Ok; changed content => recover is Err or another key and verify_message Err; flipped signature bit / other recovery id => Err or another key; malformed (id>3, r or s zero or >= group order) => Err; every subject call under catch_unwind; encode::public_key / encode::signature collision-free over every key and signature met, every key's negation (differs only in the parity byte) and every valid key that shares all but the last serialized byte with a signer's key, *_as_bytes = big-endian bytes of the words; RecoverSecp256k1 through sync::step_op on [address words, encode::signature words] pushes encode::public_key(recovered key); check_signed_contract accepts exactly when verify does. non-trivial = the presented contract has a predicate or the signature/content was tampered; distinct by probe",
         assumptions: &["keys come from a fixed pool of 4 (thorough: 8) and contracts from a pool of small predicates: structural dimensions (permutations, fields, bits) exhausted, the 2^256 key and digest spaces are not"],
         run,
         replay,
@@ -426,7 +426,19 @@ fn bases() -> Vec<Vec<Predicate>> {
     }
     v.push(vec![pool[1].clone(), pool[1].clone()]);
     v.push(vec![pool[1].clone(), pool[3].clone(), pool[1].clone()]);
+    // predicates exactly at the documented limits (1000 nodes / 1000 edges): within limits, so the
+    // signature must bind them like any other
+    v.push(vec![limit_predicate(true)]);
+    v.push(vec![pool[1].clone(), limit_predicate(false)]);
     v
+}
+
+fn limit_predicate(nodes: bool) -> Predicate {
+    if nodes {
+        Predicate { nodes: (0..1000).map(|i| Node { edge_start: u16::MAX, program_address: pa(if i % 2 == 0 { 0xA1 } else { 0xB2 }) }).collect(), edges: vec![] }
+    } else {
+        Predicate { nodes: vec![Node { edge_start: 0, program_address: pa(0xA1) }, Node { edge_start: u16::MAX, program_address: pa(0xB2) }], edges: vec![1; 1000] }
+    }
 }
 
 fn salts() -> [[u8; 32]; 2] {
@@ -455,6 +467,36 @@ fn permutations<T: Clone>(v: &[T]) -> Vec<Vec<T>> {
 
 /// Every differing, still encodable predicate reachable by xor-ing one byte of the encoding.
 fn predicate_tamperings(p: &Predicate, masks: &[u8], addr_bits: bool) -> Vec<Predicate> {
+    if p.nodes.len() >= 500 || p.edges.len() >= 500 {
+        // large predicates: structural edits only (not through the codec under test), staying within limits
+        let mut out = vec![];
+        let n = p.nodes.len();
+        for i in [0, n / 2, n - 1] {
+            let mut q = p.clone();
+            q.nodes[i].program_address.0[31] ^= 1;
+            out.push(q);
+            let mut q = p.clone();
+            q.nodes[i].edge_start = q.nodes[i].edge_start.wrapping_sub(1);
+            out.push(q);
+        }
+        if !p.edges.is_empty() {
+            let e = p.edges.len();
+            for i in [0, e / 2, e - 1] {
+                let mut q = p.clone();
+                q.edges[i] ^= 1;
+                out.push(q);
+            }
+            let mut q = p.clone();
+            q.edges.pop();
+            out.push(q);
+        }
+        let mut q = p.clone();
+        q.nodes.pop();
+        out.push(q);
+        out.retain(|q| q != p);
+        out.dedup();
+        return out;
+    }
     let Ok(enc) = p.encode() else { return vec![] };
     let bytes: Vec<u8> = enc.collect();
     let mut out = vec![];
